@@ -1,6 +1,8 @@
 #!/usr/bin/env python3
-"""Copies the confirmed round-2 seeded changes from work/mut2keep into seeded/<id>c|d/ with meta.json."""
-import json, os, re, shutil
+"""Copies the confirmed seeded changes of a round from work/mut<N>keep into seeded/<id><letter>/ with meta.json.
+   usage: keep_round.py <round: 2|3>"""
+import json, os, re, shutil, sys
+ROUND = int(sys.argv[1]) if len(sys.argv) > 1 else 2
 V = os.path.dirname(os.path.dirname(os.path.abspath(__file__)))
 NEEDS = {
  'C01a': 'a caller blocked in RecvMsg at the moment the channel is torn down (receiver cancelled before the stream outcome is recorded): a fabricated empty message',
@@ -40,8 +42,48 @@ NEEDS = {
  'C18a': 'an hour value whose nanosecond product wraps past zero back into the positive range (5124096H..7686143H, 10248192H..): a short deadline instead of saturation',
  'C18b': 'a tunnel whose own context carries a later deadline than the RPC\'s grpc-timeout: the per-RPC timeout is dropped and the handler sees the tunnel deadline',
 }
+NEEDS3 = {
+ 'C01a': 'the peer sends an empty (zero-byte) message and the receive target has been used before (Invoke with a reused response, RecvMsg into one variable): decoding is skipped and the old content is reported',
+ 'C01b': 'the client has sent everything and half-closed, the handler is behind, then the stream context ends without a cancel frame (tunnel torn down, server-side grpc-timeout): the handler reads a clean end-of-stream after a prefix',
+ 'C02a': 'a streaming handler that sets no headers and sends a message, the caller asks for Header() mid-stream: no header frame precedes the message, Header() blocks until the RPC ends',
+ 'C02b': 'per-RPC credentials that reuse a key already present in the outgoing metadata (or two credentials sharing a key): earlier values are dropped (Set instead of Append)',
+ 'C03a': 'an RPC with unencodable (non-UTF-8) metadata on a carrier that survives the encode failure (nested tunnel / in-memory): a stray cancel frame for an id the server never saw aborts the tunnel',
+ 'C03b': 'revision zero, a non-reading consumer with at least two undelivered frames, then that RPC ends: close() deadlocks against accept(), every RPC of the tunnel hangs',
+ 'C04a': 'GracefulStop with an RPC in flight, then Stop: Stop returns early in state closing and the tunnel is never terminated',
+ 'C04b': 'a caller blocked in SendMsg on the 64 KiB window with a context that never ends, then the tunnel ends: the sender waits on the caller\'s context instead of the stream\'s',
+ 'C05a': 'full-duplex traffic with applications reading on both sides over a carrier that buffers few frames: the window update is written while the receiver lock is held and the two receive loops block behind each other',
+ 'C05b': 'a sender out of credit whose stream is ended by the server or by the tunnel closing (not by the caller\'s context): never woken',
+ 'C06a': 'a data frame larger than the whole window arriving while nothing is queued (e.g. a 65537-byte first frame): accepted, the uint32 window wraps and enforcement is off for that stream',
+ 'C06b': 'a peer overruns the request window of a stream whose handler is parked in SendMsg waiting for credit: the sender waits on the tunnel context, finishStream blocks on the write lock, the tunnel stalls',
+ 'C07a': 'cancel or deadline landing after the response message frame and before the close frame of a unary-response RPC used through the stream API: success with the message although the RPC was cancelled',
+ 'C07b': 'revision zero, an RPC with at least two unread response frames, then a cancel of that RPC: close() waits for the lock accept() holds',
+ 'C08a': 'a new_stream refused at stream level directly followed by a frame of another stream: the refusal is sent with the next frame\'s stream id (loop variable shared with the goroutine)',
+ 'C08b': 'an RPC started on an already cancelled context (or cancelled between id allocation and the send): the cancel frame can reach the wire before new_stream',
+ 'C09a': 'an envelope announcing a huge size followed by one byte, read by the client: the reassembly buffer is allocated to the announced size',
+ 'C09b': 'reverse tunnel: a frame for a never-created stream ends the tunnel but the tunnel-wide context is never cancelled, handlers of in-flight RPCs stay parked',
+ 'C10a': 'Stop / GracefulStop while a reverse tunnel is opening (after OpenReverseTunnel was sent, before the response headers): Stop returns while that Serve call goes on to serve the tunnel',
+ 'C10b': 'a new_stream refused while shutting down followed immediately by a frame of a different stream: the Unavailable refusal goes to the wrong stream',
+ 'C11a': 'a peer that advertises negotiation and then ends the stream cleanly without sending its settings frame: Err() is nil (errors.Is on the wrapped EOF)',
+ 'C11b': 'the local end supports fewer revisions than the peer offers (flow control disabled locally, or the peer offers [0,1,7]): the highest offered revision is chosen although not supported locally',
+ 'C12a': 'a reverse tunnel whose first close happens before the handler has registered it (bad first frame, carrier dies before settings, AffinityKey closes it): added to both registries and never removed',
+ 'C12b': 'the last tunnel of a key is removed while another tunnel with that key opens or a WaitForReady on that key runs: they hold an orphaned per-key set',
+ 'C13a': 'a refused stream while other streams are active: the close frame of the refusal carries the stream id of whichever frame arrived next',
+ 'C13b': 'revision zero and a message whose size is an exact non-zero multiple of 16384: an extra empty continuation frame',
+ 'C14a': 'an in-flight RPC without a deadline whose handler is blocked in Recv when the tunnel itself ends: the goroutine that would wake it was never started',
+ 'C14b': 'a reverse tunnel that dies between the two registrations with the tear-down reaching the per-key registry first: it stays in the per-key registry',
+ 'C15a': 'Close() (or a context end / tunnel failure) overlapping an in-flight Send from another goroutine: CloseSend reaches the carrier stream without the send mutex',
+ 'C15b': 'revision zero, a stream with at least two unread frames (receive loop parked in accept), another goroutine ends that RPC: lock-level deadlock',
+ 'C16a': 'unary Invoke and a peer that ends the call with OK status and no response message: Invoke returns success and leaves the response untouched',
+ 'C16b': 'the one allowed send on a unary-request stream fails (carrier failure mid-message, marshal failure), then the application sends again: the second SendMsg is accepted',
+ 'C17a': 'a client stream interceptor on the underlying connection that adds headers to the OpenTunnel call: TunnelMetadataFromOutgoingContext no longer shows them',
+ 'C17b': 'an RPC with zero request headers over a forward or nested-forward tunnel: the handler inherits the OpenTunnel call\'s incoming metadata',
+ 'C18a': 'an hour value whose nanosecond product wraps back into the positive range (5124096H, 10248192H, ...): a short deadline instead of saturation',
+ 'C18b': 'a well-formed zero timeout (0S, 0n, 00000000H, or a repeated header whose last value is zero): no deadline at all instead of an already expired one',
+}
+if ROUND == 3:
+    NEEDS = NEEDS3
 conf = {}
-for f in ('confirm2.log', 'confirm2b.log'):
+for f in (('confirm2.log', 'confirm2b.log') if ROUND == 2 else ('confirm%d.log' % ROUND,)):
     p = os.path.join(V, 'work', f)
     if os.path.exists(p):
         for line in open(p):
@@ -54,16 +96,16 @@ for key, (suite, w, wo) in sorted(conf.items()):
         print('rejected', key, suite, w, wo)
         continue
     pid, v = key[:3], key[3]
-    nv = {'a': 'c', 'b': 'd'}[v]
+    nv = {2: {'a': 'c', 'b': 'd'}, 3: {'a': 'e', 'b': 'f'}}[ROUND][v]
     d = os.path.join(V, 'seeded', pid + nv)
     os.makedirs(d, exist_ok=True)
-    src = os.path.join(V, 'work', 'mut2keep', pid)
+    src = os.path.join(V, 'work', 'mut%dkeep' % ROUND, pid)
     shutil.copy(os.path.join(src, v + '.diff'), os.path.join(d, 'patch.diff'))
     demo = os.path.join(src, 'mutdemo_%s_test.go' % v)
     if os.path.exists(demo):
         shutil.copy(demo, os.path.join(d, 'demo_test.go.txt'))
-    meta = {'property': pid, 'variant': nv, 'round': 2, 'needs_to_manifest': NEEDS.get(key, ''),
-            'origin': 'produced by an independent sub-agent given only the property text and a scratch worktree (second round: at least one change per property outside the most obvious function / through an interaction of two features)',
+    meta = {'property': pid, 'variant': nv, 'round': ROUND, 'needs_to_manifest': NEEDS.get(key, ''),
+            'origin': 'produced by an independent sub-agent given only the property text and a scratch worktree (later rounds: at least one change per property outside the most obvious function, through an interaction of two features, at a boundary or on a rarely taken path)',
             'confirmed_in_scratch_worktree': {
                 'what_was_run': 'tools/confirm_mutants.sh: git worktree of /repo HEAD under /tmp/mutv; git apply patch.diff; go build ./...; go test -mod=mod -vet=off -count=1 ./... (suite); demo test copied in and run with the change (must FAIL), change reverted, demo run again (must pass)',
                 'suite_with_change': suite, 'demo_with_change': w, 'demo_without_change': wo},
